@@ -11,6 +11,8 @@ Sections
            pinned deviations; for pre-release versions and a requirement naming no pre-release: rejected;
            for pre-release versions and a requirement naming one: consistency with SemVer order under
            the rule the code documents (gate 'any') - Cargo's stricter same-triple gate is only counted
+  history  every order of using accepts_version / api and calling update_version on ONE manifest.Dependency object:
+           the object answers like a fresh one carrying the current requirement (and that answer is judged as in grid)
   order    SemVer section 11 on all pairs of an adversarial domain (six operators, vs the oracle) and the
            strict-weak-order axioms on all triples of the observed `<` relation; CargoLock sorting
   cfg      every expression to depth 2 (arity <= 2; depth <= 1 arity <= 3; beyond that sampled) x 16
@@ -53,6 +55,7 @@ VERS: T.List[T.Tuple[str, str, refsemver.Version]] = []
 VER_BY_TRIPLE: T.Dict[T.Tuple[int, int, int], T.List[int]] = {}
 ORDER: T.List[str] = []
 POOL1: T.List[refcfg.Ast] = []
+POOL2: T.List[refcfg.Ast] = []     # argument pool of the enumerated depth-2 class
 ASSIGN: T.List[T.Dict[str, str]] = []
 SEED = 0
 QUICK = os.environ.get('VERIF_TIER', 'quick') != 'thorough'
@@ -402,6 +405,173 @@ def sort_probe(chk: common.Check, rng: random.Random, rounds: int, viol: T.Calla
 
 
 # ==========================================================================================
+# section: histories on one Dependency object (lazily cached matcher / api, update_version)
+#
+# manifest.Dependency is the object the cargo interpreter asks (`dep.accepts_version(v)`, `dep.api`) and later
+# re-pins (`dep.update_version('=X.Y.Z')`).  accepts_version and api are cached on first use, so what the object
+# answers may depend on what was looked at before.  Demand: after ANY history of {use accepts_version, use api,
+# update_version(r)} the object answers exactly like a fresh Dependency carrying the current requirement - and
+# that answer is judged by the same oracle as the grid.
+
+HIST_OLD = ['', '*', '1.2', '^0.2', '~1.1', '>=1.0.0, <3.0.0', '=1.2.3', '1', '<=2', '0.0', '1.2.3-alpha', '>1.1']
+HIST_NEW = ['=1.2.3', '=0.2.1', '=1.1.0', '=2.3.1', '=1.0.0', '2', '~2.1', '^0.0.3', '>=2.0.0-alpha', '']
+
+
+def _pre_histories(max_len: int) -> T.List[T.Tuple[str, ...]]:
+    import itertools
+    out: T.List[T.Tuple[str, ...]] = []
+    for n in range(max_len + 1):
+        out += list(itertools.product('AP', repeat=n))
+    return out
+
+
+def _ref_pred(req: str) -> T.Optional[T.Callable[[refsemver.Version], bool]]:
+    """Reference acceptance on RELEASE versions; None when the text is outside the reference grammar.
+    The empty text is "no requirement" (accepts everything)."""
+    if not req.strip():
+        return lambda v: True
+    try:
+        comps = refsemver.parse_req(req)
+    except refsemver.RefError:
+        return None
+    return lambda v: refsemver.matches(comps, v, gate='cargo')
+
+
+def _history_versions(rng: random.Random, reqs: T.Sequence[str], n: int) -> T.List[int]:
+    """Indices into VERS: release versions on which the requirements of the history disagree (per the oracle)
+    first, then seeded others (a few pre-releases among them)."""
+    preds = [p for p in (_ref_pred(r) for r in reqs) if p is not None]
+    rel = [j for j, (_, k, v) in enumerate(VERS) if not v.pre and k in ('release', 'build')]
+    split = [j for j in rel if len({p(VERS[j][2]) for p in preds}) > 1]
+    rng.shuffle(split)
+    chosen = dict.fromkeys(split[:n // 2])
+    for j in rng.sample(range(len(VERS)), min(len(VERS), n)):
+        if len(chosen) >= n:
+            break
+        chosen.setdefault(j)
+    return list(chosen)
+
+
+def _outcome(fn: T.Callable[[], T.Any]) -> T.Tuple[str, T.Any]:
+    try:
+        return ('val', fn())
+    except MesonException as e:
+        return ('meson-exception', type(e).__name__)
+    except Exception as e:
+        return ('internal', f'{type(e).__name__}: {e}')
+
+
+def run_history(acc: Acc, old: str, ops: T.Sequence[T.Tuple[str, ...]], vidx: T.Sequence[int], via_from_raw: bool) -> None:
+    """Execute ops on one Dependency; every 'A' / 'P' is a checkpoint."""
+    if via_from_raw:
+        dep = mmanifest.Dependency.from_raw('pkg', old if old else {})
+    else:
+        dep = mmanifest.Dependency('pkg', version=old)
+    cur = old
+    past: T.List[str] = []
+    acc.count('dependency-histories')
+    wit = {'kind': 'dep-history', 'old': old, 'ops': [list(o) for o in ops], 'from_raw': via_from_raw}
+    for step, op in enumerate(ops):
+        if op[0] == 'U':
+            past.append(cur)
+            cur = op[1]
+            r = _outcome(lambda: dep.update_version(cur))
+            if r[0] != 'val' or dep.version != cur:
+                acc.mismatch('dependency-update-version-failed', {**wit, 'step': step, 'real': r})
+        elif op[0] == 'P':
+            acc.count('monitor:dependency-history-api-equals-fresh')
+            got = _outcome(lambda: dep.api)
+            want = _outcome(lambda: mversion.api(cur))
+            if got != want:
+                stale = any(got == _outcome(lambda q=q: mversion.api(q)) for q in past)
+                acc.mismatch('dependency-api-stale-after-update' if stale else 'dependency-api-history-dependent',
+                             {**wit, 'step': step, 'requirement_now': cur, 'real': got, 'want': want})
+        else:
+            fresh = _outcome(lambda: mmanifest.Dependency('pkg', version=cur).accepts_version)
+            pred = _outcome(lambda: dep.accepts_version)
+            if fresh[0] != 'val' or pred[0] != 'val':
+                if fresh[0] != pred[0]:
+                    acc.mismatch('dependency-accepts-version-history-dependent',
+                                 {**wit, 'step': step, 'requirement_now': cur, 'real': pred[:1], 'want': fresh[:1]})
+                continue
+            try:
+                comps: T.Optional[T.List[refsemver.Comparator]] = refsemver.parse_req(cur) if cur.strip() else None
+            except refsemver.RefError:
+                comps = None
+            got_vec, want_vec = [], []
+            for j in vidx:
+                ver, _k, v = VERS[j]
+                g = _outcome(lambda: pred[1](ver))
+                w = _outcome(lambda: fresh[1](ver))
+                got_vec.append(g)
+                want_vec.append(w)
+                acc.count('monitor:dependency-history-accepts-equals-fresh')
+                if comps is not None and g[0] == 'val' and g == w:
+                    # same answer as a fresh object: judged like a grid pair (known grid mechanisms pass through)
+                    section, want = judge(comps, v, g[1])
+                    acc.count('monitor:dependency-history-accepts-vs-oracle')
+                    if g[1] is not want:
+                        acc.mismatch(classify_req(cur, comps, v, g[1], bool(want), section),
+                                     {'kind': 'req', 'req': cur, 'ver': ver, 'real': g[1], 'want': want, 'section': section,
+                                      'req_class': 'dependency-history', 'e2e': True})
+            if got_vec != want_vec:
+                stale = False
+                for q in past:
+                    qp = _outcome(lambda q=q: mmanifest.Dependency('pkg', version=q).accepts_version)
+                    if qp[0] == 'val' and [_outcome(lambda j=j: qp[1](VERS[j][0])) for j in vidx] == got_vec:
+                        stale = True
+                        break
+                k = next(i for i, (g, w) in enumerate(zip(got_vec, want_vec)) if g != w)
+                acc.mismatch('dependency-accepts-version-stale-after-update' if stale else 'dependency-accepts-version-history-dependent',
+                             {**wit, 'step': step, 'requirement_now': cur, 'ver': VERS[vidx[k]][0], 'real': got_vec[k], 'want': want_vec[k],
+                              'versions': [VERS[j][0] for j in vidx]})
+
+
+def _enumerated_histories(new: str, new2: str) -> T.List[T.List[T.Tuple[str, ...]]]:
+    """pre in {A,P}^(0..3); update; then either observe, or (nothing | A | P) + second update + observe."""
+    out: T.List[T.List[T.Tuple[str, ...]]] = []
+    for pre in _pre_histories(3):
+        head: T.List[T.Tuple[str, ...]] = [(x,) for x in pre] + [('U', new)]
+        out.append(head + [('A',), ('P',)])
+        for mid in ((), ('A',), ('P',)):
+            out.append(head + [(x,) for x in mid] + [('U', new2), ('P',), ('A',)])
+    return out
+
+
+def history_worker(item: T.Tuple[str, int, int]) -> dict:
+    what, a, b = item
+    acc = Acc()
+    mon.take()
+    if what == 'enum':       # pairs a..b of HIST_OLD x HIST_NEW, every enumerated history
+        pairs = [(o, n) for o in HIST_OLD for n in HIST_NEW]
+        for idx in range(a, min(b, len(pairs))):
+            old, new = pairs[idx]
+            new2 = HIST_NEW[(HIST_NEW.index(new) + 3) % len(HIST_NEW)]
+            rng = random.Random(f'{SEED}:hist:{idx}')
+            vidx = _history_versions(rng, [old, new, new2], 14)
+            for h, ops in enumerate(_enumerated_histories(new, new2)):
+                run_history(acc, old, ops, vidx, via_from_raw=(h + idx) % 2 == 1)
+            acc.count('dependency-history-requirement-pairs')
+            if idx % 37 == 0:
+                acc.samples.append({'dependency_history': {'old': old, 'ops': 'A P update(%r) A P' % new}})
+    else:                    # seeded: requirements of the grid, random histories with up to 3 updates
+        rng = random.Random(f'{SEED}:histrand:{a}')
+        singles = [r for r, _k in REQS]
+        for _ in range(b):
+            old = rng.choice(singles + ['', '*'])
+            ops: T.List[T.Tuple[str, ...]] = []
+            reqs = [old]
+            for _u in range(rng.randint(1, 3)):
+                ops += [(rng.choice('AP'),) for _x in range(rng.randint(0, 3))]
+                r = rng.choice(singles) if rng.random() < 0.5 else '=%d.%d.%d' % (rng.randrange(4), rng.randrange(4), rng.randrange(4))
+                reqs.append(r)
+                ops.append(('U', r))
+            ops += [('A',), ('P',)] if rng.random() < 0.5 else [('P',), ('A',)]
+            run_history(acc, old, ops, _history_versions(rng, reqs, 10), via_from_raw=rng.random() < 0.5)
+    return acc.data()
+
+
+# ==========================================================================================
 # section: cfg
 
 def real_eval(s: str, cfgs: T.Dict[str, str]) -> T.Tuple[str, T.Any]:
@@ -504,7 +674,7 @@ def check_lexer(acc: Acc, s: str, klass: str) -> None:
 def check_valid_expr(acc: Acc, s: str, ast: refcfg.Ast, assigns: T.Sequence[T.Dict[str, str]], klass: str) -> None:
     """Well-formed expression: (1) the real parser's IR has the structure of the text, (2) the real evaluator on
     that IR gives the Boolean value of the structure for every assignment, (3) eval_cfg('cfg(..)') end to end
-    agrees on two assignments rotating with the text (one for the enumerated depth-2 class in the quick tier)."""
+    agrees on two assignments rotating with the text."""
     acc.count('cfg-expressions')
     check_lexer(acc, s, klass)
     st, got, ir = real_parse_ir(s)
@@ -524,7 +694,7 @@ def check_valid_expr(acc: Acc, s: str, ast: refcfg.Ast, assigns: T.Sequence[T.Di
                 acc.mismatch(classify_cfg(s, 'ok', real), {'kind': 'cfg', 'expr': s, 'cfgs': cfgs, 'refkind': 'ok',
                                                            'real': real, 'want': want, 'class': klass, 'via': '_eval_cfg'})
     k = len(s) % len(assigns)
-    e2e = (assigns[k],) if (klass == 'depth2' and QUICK) else (assigns[k], assigns[(k * 7 + 5) % len(assigns)])
+    e2e = (assigns[k], assigns[(k * 7 + 5) % len(assigns)])
     for cfgs in e2e:
         want = refcfg.evaluate(ast, cfgs)
         real = real_eval(s, cfgs)
@@ -582,7 +752,7 @@ def cfg_depth_worker(item: T.Tuple[str, int, int]) -> dict:
                 acc.samples.append(s)
     elif what == 'd2':
         for i in range(start, end):
-            ast = gen.depth2_item(i, POOL1)
+            ast = gen.depth2_item(i, POOL2)
             if refcfg.depth(ast) < 2:
                 continue
             s = refcfg.render(ast, i % 4)
@@ -612,7 +782,7 @@ def cfg_unary3_worker(item: T.Tuple[int, int]) -> dict:
     acc = Acc()
     mon.take()
     for i in range(start, end):
-        inner = gen.depth2_item(i, POOL1)
+        inner = gen.depth2_item(i, POOL2)
         if refcfg.depth(inner) < 2:
             continue
         for w, ast in enumerate((('not', inner), ('all', [inner]), ('any', [inner]))):
@@ -884,6 +1054,17 @@ def replay(chk: common.Check, path: str) -> int:
             want = ('no internal error',)
             fails = real[0] == 'internal'
         print(f'replay cfg({expr!r}) cfgs={cfgs!r}: oracle={kindr} real={real!r} want={want!r}')
+    elif kind == 'dep-history':
+        global VERS
+        VERS = [(v, k, refsemver.parse_version(v)) for v, k in gen.versions()]
+        acc = Acc()
+        mon.take()
+        names = {v: j for j, (v, _k, _v) in enumerate(VERS)}
+        vidx = [names[x] for x in w.get('versions', []) if x in names] or list(range(0, len(VERS), 7))
+        run_history(acc, w['old'], [tuple(o) for o in w['ops']], vidx, bool(w.get('from_raw')))
+        d = acc.data()
+        fails = bool(d['mis_n'])
+        print(f'replay dependency history old={w["old"]!r} ops={w["ops"]!r}: mismatches now = {d["mis_n"]}')
     elif kind == 'lex':
         acc = Acc()
         check_lexer(acc, w['expr'], 'replay')
@@ -920,7 +1101,7 @@ def replay(chk: common.Check, path: str) -> int:
 # ==========================================================================================
 
 def main() -> int:
-    global REQS, VERS, VER_BY_TRIPLE, ORDER, POOL1, ASSIGN, SEED
+    global REQS, VERS, VER_BY_TRIPLE, ORDER, POOL1, POOL2, ASSIGN, SEED
     chk = common.Check(PID)
     mon.install(mversion, mcfg, MesonException, MesonBugException)
     if os.environ.get('VERIF_REPLAY'):
@@ -956,8 +1137,8 @@ def main() -> int:
                     if mech in chk.known:
                         chk.known_hits[mech] = chk.known_hits.get(mech, 0) + extra
             for s in d['samples']:
-                sec = 'grid' if isinstance(s, dict) else 'cfg'
-                if len(section_samples.setdefault(sec, [])) < (4 if sec == 'grid' else 8):
+                sec = ('history' if 'dependency_history' in s else 'grid') if isinstance(s, dict) else 'cfg'
+                if len(section_samples.setdefault(sec, [])) < (8 if sec == 'cfg' else 3 if sec == 'history' else 4):
                     section_samples[sec].append(s)
             hashes |= d['hashes']
         return hashes
@@ -966,11 +1147,11 @@ def main() -> int:
     calibrate(chk, viol)
 
     # ---- grid ----------------------------------------------------------------------------
-    REQS = gen.requirements(chk.rng, 3000)
+    REQS = gen.requirements(chk.rng, 3000 if thorough else 1500)
     VERS = [(v, k, refsemver.parse_version(v)) for v, k in gen.versions()]
     for j, (_, k, v) in enumerate(VERS):
         VER_BY_TRIPLE.setdefault((v.major, v.minor, v.patch), []).append(j)
-    k_random = -1 if thorough else 30
+    k_random = -1 if thorough else 16
     step = max(1, len(REQS) // (chk.jobs * 6))
     items = [(i, min(i + step, len(REQS)), k_random) for i in range(0, len(REQS), step)]
     chk.rng.shuffle(items)
@@ -1006,19 +1187,40 @@ def main() -> int:
     totals['distinct'] += n * (n - 1)
     chk.notes['order'] = {'versions': n, 'pairs': n * n, 'triples': triples}
     section_samples['order'] = [{'order_domain_excerpt': ORDER[:6] + ORDER[26:34]}]
+    # ---- histories on one Dependency object ----------------------------------------------------
+    n_pairs = len(HIST_OLD) * len(HIST_NEW)
+    if thorough:
+        hitems: T.List[T.Any] = [('enum', i, i + 6) for i in range(0, n_pairs, 6)] + [('rand', i, 150) for i in range(20)]
+    else:
+        # quick: a seeded half of the enumerated pairs (rotates with the seed) + a few random histories
+        order_ = list(range(n_pairs))
+        chk.rng.shuffle(order_)
+        hitems = [('enum', i, i + 1) for i in sorted(order_[:n_pairs // 2])] + [('rand', i, 60) for i in range(4)]
+    res = common.pmap(history_worker, hitems, chk.jobs)
+    merge(res)
+    n_hist_checks = chk.counters.get('monitor:dependency-history-accepts-equals-fresh', 0) + chk.counters.get('monitor:dependency-history-api-equals-fresh', 0)
+    totals['evaluations'] += n_hist_checks
+    totals['distinct'] += chk.counters.get('dependency-histories', 0)
+    chk.notes['dependency_histories'] = {'histories': chk.counters.get('dependency-histories', 0),
+                                         'enumerated_requirement_pairs': chk.counters.get('dependency-history-requirement-pairs', 0),
+                                         'of': n_pairs, 'checkpoints': n_hist_checks}
     t_order = time.time() - t0 - t_grid
 
     # ---- cfg -----------------------------------------------------------------------------
     POOL1 = gen.depth1()
+    # depth-2 class: not/all/any with <= 2 arguments drawn from POOL2.  thorough: every depth<=1 expression of
+    # arity <= 3 (178); quick: those of arity <= 2 (50) - the wider ones are reached by the sampled class.
+    POOL2 = POOL1 if thorough else list(gen.ATOMS) + list(gen.level_up(gen.ATOMS, 2))
     ASSIGN = gen.assignments()
     n1 = len(POOL1)
-    n2 = len(POOL1) + 2 * (1 + n1 + n1 * n1)
+    np2 = len(POOL2)
+    n2 = np2 + 2 * (1 + np2 + np2 * np2)
     items2: T.List[T.Any] = [('d1', 0, n1)]
     step = max(1, n2 // (chk.jobs * 8))
     items2 += [('d2', i, min(i + step, n2)) for i in range(0, n2, step)]
     per = 4000
-    n_r23 = 300000 if thorough else 12000     # depth 2 with arity 3
-    n_r3 = 300000 if thorough else 12000      # depth 3, arity <= 3
+    n_r23 = 300000 if thorough else 32000     # depth 2 with arity 3
+    n_r3 = 300000 if thorough else 32000      # depth 3, arity <= 3
     items2 += [('r:2:3', i, per) for i in range(n_r23 // per)]
     items2 += [('r:3:3', i, per) for i in range(n_r3 // per)]
     if time.time() - t0 > budget * 0.7:
@@ -1076,16 +1278,17 @@ def main() -> int:
     totals['evaluations'] += chk.counters.get('monitor:directed-probes', 0)
 
     # ---- verdict ----------------------------------------------------------------------------
-    chk.samples = section_samples.get('grid', []) + section_samples.get('order', []) + section_samples.get('cfg', [])
+    chk.samples = section_samples.get('grid', []) + section_samples.get('history', []) + section_samples.get('order', []) + section_samples.get('cfg', [])
     chk.evaluations = totals['evaluations']
     for name, minimum in (('monitor:grid-release-vs-cargo-matcher', 50000), ('monitor:prerelease-gate', 5000),
                           ('monitor:prerelease-both-readings-agree', 10000), ('monitor:prerelease-both-readings-accept', 500), ('monitor:order-pair-vs-semver11', 10000),
-                          ('monitor:order-axioms-triples', 100000), ('monitor:cfg-eval-vs-structure', 100000),
-                          ('monitor:cfg-parse-structure', 10000), ('monitor:lexer-vs-reference-tokens', 50000), ('monitor:cfg-eval-end-to-end', 50000), ('monitor:cfg-malformed-rejected-with-mesonexception', 5000),
+                          ('monitor:order-axioms-triples', 100000), ('monitor:cfg-eval-vs-structure', 50000),
+                          ('monitor:cfg-parse-structure', 10000), ('monitor:lexer-vs-reference-tokens', 30000), ('monitor:cfg-eval-end-to-end', 20000), ('monitor:cfg-malformed-rejected-with-mesonexception', 5000),
                           ('monitor:cfg-exception-type-policy', 5000), ('monitor:cfg-string-with-delimiters', 500),
                           ('monitor:directed-probes', 10), ('monitor:e2e-dependency-accepts-version', 100),
-                          ('monitor:e2e-cargolock-sorted-newest-first', 10), ('contract:semver-cmp', 50000),
-                          ('contract:accept', 50000), ('contract:cargo_parse', 1000), ('contract:lexer-conservation', 50000), ('contract:cfg-outcome-policy', 100000),
+                          ('monitor:e2e-cargolock-sorted-newest-first', 10), ('monitor:dependency-history-accepts-equals-fresh', 20000),
+                          ('monitor:dependency-history-api-equals-fresh', 2000), ('monitor:dependency-history-accepts-vs-oracle', 10000), ('contract:semver-cmp', 50000),
+                          ('contract:accept', 50000), ('contract:cargo_parse', 1000), ('contract:lexer-conservation', 30000), ('contract:cfg-outcome-policy', 50000),
                           ('calibration:real-vs-pinned', 100), ('info:pairs-where-a-pinned-deviation-decides', 100)):
         chk.require(name, minimum)
     op_cells = sorted(k for k in cells if not k.startswith('cfg|'))
@@ -1097,9 +1300,10 @@ def main() -> int:
     return chk.finish(
         rule=('grid: every requirement string (deduplicated; operators x partial versions over {0..3}, wildcards, pre-release '
               'requirements, multi-digit, blanks, comma pairs) is paired with versions (thorough: all; quick: the boundary '
-              'neighbourhood of each comparator + 30 seeded ones); a pair is non-trivial when the version major is within 1 '
+              'neighbourhood of each comparator + 16 seeded ones); a pair is non-trivial when the version major is within 1 '
               'of a comparator major. order: all ordered pairs (a != b) of the adversarial version domain, all triples for the '
-              'axioms. cfg: distinct expressions by structure (depth <= 1 arity <= 3 and depth 2 arity <= 2 enumerated, the rest '
+              'axioms. dependency histories: per (old, new) requirement pair every history pre in {use accepts_version, use api}^(0..3), '
+              'update, optionally (nothing|A|P) + second update, observe; distinct by (pair, history). cfg: distinct expressions by structure (depth <= 1 arity <= 3 and depth 2 arity <= 2 enumerated - in the quick tier over arguments of arity <= 2 - the rest '
               'sampled and deduplicated by a 64-bit hash of the text), each against all 16 assignments; soups: every token '
               'sequence up to the length bound + seeded random / near-miss strings deduplicated by hash.'),
         assumptions=[
@@ -1117,7 +1321,7 @@ def main() -> int:
         extra={'distinct_nontrivial': totals['distinct'], 'evaluations': totals['evaluations'],
                'operator_shape_class_outcome_cells': len(op_cells), 'operator_cells_sample': op_cells[:12],
                'cfg_cells': cfg_cells,
-               'exhaustive_parts': {'grid': thorough, 'order_pairs_and_triples': True, 'cfg_depth<=2_arity<=2': True,
+               'exhaustive_parts': {'grid': thorough, 'dependency_histories_over_enumerated_pairs': thorough, 'order_pairs_and_triples': True, 'cfg_depth<=2_arity<=2': thorough, 'cfg_depth2_arity<=2_over_args_of_arity<=2': True,
                                     'cfg_depth<=1_arity<=3': True, 'cfg_depth3_unary': thorough,
                                     f'token_soups_len<={max_len}': True, 'single_token_edits_of_depth<=1_arity<=2': True}})
 
